@@ -452,8 +452,16 @@ class Component(CaselessDict):
                     comps.append(component)
                 else:
                     stack[-1].add_component(component)
-                if vals.upper() == 'VTIMEZONE' and 'TZID' in component:
-                    tzp.cache_timezone_component(component)
+                if vals.upper() == 'VTIMEZONE' and \
+                        isinstance(component, Timezone) and 'TZID' in component:
+                    try:
+                        tzp.cache_timezone_component(component)
+                    except (AssertionError, AttributeError, IndexError,
+                            KeyError, TypeError) as e:
+                        # the definition is incomplete or malformed
+                        raise ValueError(
+                            f'Invalid VTIMEZONE: {type(e).__name__}: {e}'
+                        ) from e
             # we are adding properties to the current top of the stack
             else:
                 factory = types_factory.for_property(name)
